@@ -176,15 +176,20 @@ type CB struct {
 	Kind      CBKind
 	PanicKind int // which kind of value is raised
 	ExitCode  int
-	Nested    bool // CBExit: the Exit is raised inside a nested application the callback runs (by the Set of one of its values)
-	Help      int  // 1: the callback first calls PrintHelp on its command, 2: PrintLongHelp (public API)
+	Nested    bool   // CBExit: the Exit is raised inside a nested application the callback runs (by the Set of one of its values)
+	Help      int    // 1: the callback first calls PrintHelp on its command, 2: PrintLongHelp (public API)
+	HelpTag   string // tag of the command whose help is printed ("" = the callback's own command)
 }
 
 func (c CB) String() string {
 	if c.Help > 0 && c.Kind != CBAbsent {
 		h := c
 		h.Help = 0
-		return []string{"", "PrintHelp then ", "PrintLongHelp then "}[c.Help] + h.String()
+		of := ""
+		if c.HelpTag != "" {
+			of = " of " + c.HelpTag
+		}
+		return []string{"", "PrintHelp" + of + " then ", "PrintLongHelp" + of + " then "}[c.Help] + h.String()
 	}
 	switch c.Kind {
 	case CBReturn:
@@ -483,6 +488,8 @@ type Instance struct {
 	vars map[string]*boundVar // "tag/key"
 	keys []string
 
+	cmds map[string]*cli.Cmd // tag -> the library's command object, once configured
+
 	ActionSnap map[string]VarSnap // taken inside the Action that ran (last one if several)
 	ActionTag  string
 	Inits      map[string]int // how often each command's initializer ran
@@ -580,11 +587,15 @@ func (inst *Instance) callback(c *cli.Cmd, ev string, cb CB, isAction bool, tag 
 		if s := theSched; s != nil && !raceMode {
 			s.yield(p, "callback")
 		}
+		target := c
+		if other := inst.cmds[cb.HelpTag]; cb.HelpTag != "" && other != nil {
+			target = other
+		}
 		switch cb.Help {
 		case 1:
-			c.PrintHelp()
+			target.PrintHelp()
 		case 2:
-			c.PrintLongHelp()
+			target.PrintLongHelp()
 		}
 		switch cb.Kind {
 		case CBPanic:
@@ -621,7 +632,7 @@ func (inst *Instance) callback(c *cli.Cmd, ev string, cb CB, isAction bool, tag 
 // Build constructs the application. Root-level declarations happen here (declaration time);
 // sub-command declarations happen lazily inside Run, as the library does it.
 func Build(app *AppDecl, p *Proc) *Instance {
-	inst := &Instance{App: app, Proc: p, vars: map[string]*boundVar{}, Inits: map[string]int{}}
+	inst := &Instance{App: app, Proc: p, vars: map[string]*boundVar{}, Inits: map[string]int{}, cmds: map[string]*cli.Cmd{}}
 	c := cli.App(strings.Fields(app.Root.Name)[0], app.Root.Desc)
 	inst.Cli = c
 	c.ErrorHandling = app.Policy
@@ -634,6 +645,7 @@ func Build(app *AppDecl, p *Proc) *Instance {
 
 func (inst *Instance) configure(c *cli.Cmd, d *CmdDecl) {
 	inst.Inits[d.Tag]++
+	inst.cmds[d.Tag] = c
 	if d.Policy != nil {
 		c.ErrorHandling = *d.Policy
 	}
